@@ -29,7 +29,10 @@ TRUSTED = ["harness/c06.py, harness/fieldio.py + driver JSON glue",
 ASSUMPTIONS = ["exact-regime inputs (small integers, dyadic corners and cells): every binary64 operation on the code path of the "
                "integrals is exact, so equality is demanded; a mean is one correctly rounded division of an exact sum by a count",
                "theorems are about exact rational arithmetic; float rounding enters only via the tolerance comparator"]
-UNPROVED = []
+UNPROVED = ["linearity / per-component action / translation invariance are proved for every form of integrate and for mean(); for "
+            "mean(d) and mean(list) they follow from mean_dir_eq / mean_dirs_eq + integrate_linear and are not stated as separate theorems",
+            "the success theorems (…_ok, fubini_total) assume a mesh without subregions; with subregions the theorems are conditional on "
+            "the result being returned (the subregion setter's alignment test is modelled, its success is not proved)"]
 BUDGET = {"quick": 90, "thorough": 900}
 
 NAMES = ["x", "y", "z", "a", "b", "c", "u", "v", "w", "t"]
